@@ -1,6 +1,7 @@
 import ApdVerif.Model.Arith
 import ApdVerif.Model.Conv
 import ApdVerif.Model.Dispatch
+import ApdVerif.Model.BigInt
 import ApdVerif.Oracle.Roots
 import ApdVerif.Spec.Specials
 import ApdVerif.Spec.Order
@@ -506,6 +507,99 @@ def handleErrDec (id : String) (t : List String) : Option (List String × Nat ×
     | _ => none
   | _ => none
 
+namespace BigDrv
+open Apd.BigInt
+
+/-- value/sign/bitlen/isint64/isuint64/cmp0 of a model receiver, in the harness's format -/
+def desc (r : Rep) : String :=
+  let b (x : Bool) := if x then "1" else "0"
+  s!"{r.abs}/{Sign r}/{BitLen r}/{b (IsInt64 r)}/{b (IsUint64 r)}/{Cmp r zero}"
+
+def setAt (l : List Rep) (i : Nat) (v : Rep) : List Rep := l.set i v
+
+/-- drop the trailing "/<canon>" field of an implementation descriptor -/
+def stripCanon (s : String) : String × String :=
+  match s.splitOn "/" |>.reverse with
+  | c :: rest => ("/".intercalate rest.reverse, c)
+  | [] => (s, "")
+
+end BigDrv
+
+/-- `bigseq v0 v1 v2 n (m zi xi yi)^n => (res ref mut)^n` : method sequences on live BigInt receivers (C16) -/
+def handleBigSeq (id : String) (t : List String) : Option (List String × Nat × Nat) :=
+  match t with
+  | v0 :: v1 :: v2 :: ns :: rest => do
+    let n ← ns.toNat?
+    let i0 ← v0.toInt?; let i1 ← v1.toInt?; let i2 ← v2.toInt?
+    let mk (v : Int) : Apd.BigInt.Rep := Apd.BigInt.updateInner Apd.BigInt.zero v
+    let stepsToks := rest.take (4 * n)
+    let after := rest.drop (4 * n)
+    match after with
+    | "=>" :: outs =>
+      if outs == ["PANIC"] || outs == ["HANG"] then return propfail id "C04" "BigInt panic or hang"
+      if outs.length != 3 * n then none
+      let mut pool : List Apd.BigInt.Rep := [mk i0, mk i1, mk i2]
+      let mut res : List String × Nat × Nat := ([], 0, 0)
+      for k in [0:n] do
+        let m := stepsToks[4 * k]!
+        let zi ← (stepsToks[4 * k + 1]!).toNat?
+        let xi ← (stepsToks[4 * k + 2]!).toNat?
+        let yi ← (stepsToks[4 * k + 3]!).toNat?
+        let impl := outs[3 * k]!
+        let ref := outs[3 * k + 1]!
+        let mut_ := outs[3 * k + 2]!
+        let z ← pool[zi]?; let x ← pool[xi]?; let y ← pool[yi]?
+        if mut_ != "ok" then res := merge res (propfail id "C16" s!"step {k} {m}: an operand that is not the receiver changed ({mut_})")
+        if impl == "skip" then continue
+        -- the property: same value, sign, bit length, predicates as math/big; zero never negative
+        let parts := impl.splitOn "|"
+        let stripped := parts.map (fun p => (BigDrv.stripCanon p))
+        let isMut := ["Add", "Sub", "Mul", "Quo", "Rem", "QuoRem", "Abs", "Neg", "Set", "SetInt64", "SetUint64"].contains m
+        let implCmp := if isMut then "|".intercalate (stripped.map (·.1)) else impl
+        if implCmp != ref then res := merge res (propfail id "C16" s!"step {k} {m}: apd.BigInt gives {implCmp}, math/big gives {ref}")
+        if isMut && stripped.any (fun p => p.2 == "negzero") then
+          res := merge res (propfail id "C16" s!"step {k} {m}: negative zero representation")
+        -- the model
+        let ra := isMut && (stripped.head?.map (·.2) == some "h")
+        if m == "QuoRem" then
+          match Apd.BigInt.QuoRem z x y Apd.BigInt.zero ra ra with
+          | some (q, r) =>
+            let ms := BigDrv.desc q ++ "|" ++ BigDrv.desc r
+            if ms != implCmp then res := merge res ([s!"{id} MISMATCH bigint step {k} {m} model= {ms}"], 1, 0)
+            pool := BigDrv.setAt pool zi q
+          | none => res := merge res ([s!"{id} MISMATCH bigint step {k} {m} model= none"], 1, 0)
+        else
+          -- the harness always asks for bit 0 (the fast path); the model takes the index from its argument
+          let x := if m == "Bit" then Apd.BigInt.zero else x
+          match Apd.BigInt.stepWith ra z m x y with
+          | some (z', s) =>
+            let ms := if isMut then BigDrv.desc z' else
+              (if s == "true" then "1" else if s == "false" then "0" else s)
+            if ms != implCmp then res := merge res ([s!"{id} MISMATCH bigint step {k} {m} model= {ms}"], 1, 0)
+            if isMut then pool := BigDrv.setAt pool zi z'
+          | none => res := merge res ([s!"{id} MISMATCH bigint step {k} {m} model= none"], 1, 0)
+      return res
+    | _ => none
+  | _ => none
+
+/-- `bigwrap m x y k => apd mathbig` : a wrapper method compared with math/big directly (C16) -/
+def handleBigWrap (id : String) (t : List String) : Option (List String × Nat × Nat) :=
+  match t with
+  | [m, _, _, _, "=>", a, b] =>
+    if a == "skip" then some ([], 0, 0)
+    else if a == "PANIC" then some (propfail id "C04" s!"BigInt.{m} panic")
+    else
+      -- a = value descriptors (each ending in /canon...), b = math/big's
+      let parts := a.splitOn "|"
+      let lastCanon := (BigDrv.stripCanon (parts.getLast?.getD "")).2
+      let body := if ["Text", "Bytes", "TrailingZeroBits"].contains m then a
+                  else "|".intercalate (parts.dropLast ++ [(BigDrv.stripCanon (parts.getLast?.getD "")).1])
+      let r1 := if body != b then propfail id "C16" s!"{m}: apd.BigInt gives {body}, math/big gives {b}" else ([], 0, 0)
+      let r2 := if (lastCanon.splitOn "negzero").length > 1 then propfail id "C16" s!"{m}: negative zero representation" else ([], 0, 0)
+      some (merge r1 r2)
+  | [m, _, _, _, "=>", a] => if a == "PANIC" || a == "HANG" then some (propfail id "C04" s!"BigInt.{m} {a}") else none
+  | _ => none
+
 def handleLine (line : String) : Option (List String × Nat × Nat) :=
   match line.splitOn " " with
   | id :: "ctxop" :: rest => handleCtxOp id rest
@@ -518,6 +612,8 @@ def handleLine (line : String) : Option (List String × Nat × Nat) :=
   | id :: "rel" :: rest => handleRel id rest
   | id :: "traps" :: rest => handleTraps id rest
   | id :: "errdec" :: rest => handleErrDec id rest
+  | id :: "bigseq" :: rest => handleBigSeq id rest
+  | id :: "bigwrap" :: rest => handleBigWrap id rest
   | _ => none
 
 partial def loop (h : IO.FS.Stream) (out : IO.FS.Stream) (st : Stats) : IO Stats := do
